@@ -269,6 +269,99 @@ Definition run_oevs (cands : list N) (evs : list oev) (s : ostate) : ostate :=
   fold_left (do_oev cands) evs s.
 
 (* ====================================================================== *)
+(* Part 3: the pooled codec writers (http_compression.go)                  *)
+(* ====================================================================== *)
+(* One sync.Pool per (codec, level).  A response checks an encoder out for the
+   duration of compressResponseWriter.finish (newCompressWriter: pool.Get, or
+   New when the pool is empty) and pooledCodecWriter.Close hands it back with
+   exactly one pool.Put, whether or not the codec's final flush succeeded.
+   Requests are numbers; encoders are numbers (p_next = encoders created so
+   far).  [dbl] is the seeded variant in which a FAILING Close puts the encoder
+   back twice (explicit Close + deferred Close); the code is [dbl = false].
+   sync.Pool may also drop entries at any time, which only shrinks p_pool. *)
+Inductive cop := CGet (r : nat) | CPut (r : nat) (fail : bool).
+
+Record pstate := { p_pool : list nat; p_next : nat; p_held : list (nat * nat) (* request, encoder *) }.
+Definition pinit : pstate := {| p_pool := []; p_next := 0; p_held := [] |}.
+
+Fixpoint take_req (r : nat) (h : list (nat * nat)) : option (nat * list (nat * nat)) :=
+  match h with
+  | [] => None
+  | (r', e) :: t =>
+      if Nat.eqb r' r then Some (e, t)
+      else match take_req r t with
+           | Some (e', t') => Some (e', (r', e) :: t')
+           | None => None
+           end
+  end.
+
+Definition pstep (dbl : bool) (s : pstate) (o : cop) : pstate :=
+  match o with
+  | CGet r =>
+      match take_req r (p_held s) with
+      | Some _ => s
+      | None =>
+          match p_pool s with
+          | e :: p => {| p_pool := p; p_next := p_next s; p_held := (r, e) :: p_held s |}
+          | [] => {| p_pool := []; p_next := S (p_next s); p_held := (r, p_next s) :: p_held s |}
+          end
+      end
+  | CPut r fail =>
+      match take_req r (p_held s) with
+      | None => s
+      | Some (e, rest) =>
+          {| p_pool := (if dbl && fail then [e; e] else [e]) ++ p_pool s;
+             p_next := p_next s; p_held := rest |}
+      end
+  end.
+
+Definition prun (dbl : bool) (ops : list cop) (s : pstate) : pstate := fold_left (pstep dbl) ops s.
+
+Fixpoint nodupb (l : list nat) : bool :=
+  match l with
+  | [] => true
+  | x :: t => negb (existsb (Nat.eqb x) t) && nodupb t
+  end.
+
+(* a history of HTTP responses against one server: codec 0 = gzip, else zstd *)
+Inductive hop :=
+| HAbort (codec : N) (after : N)           (* the client's writer fails after [after] bytes *)
+| HPlain (codec : N) (x : N)               (* one response, alone; payload x *)
+| HOverlap (codec : N) (xs : list N).      (* all in flight at once: the first is a slow reader *)
+
+Inductive resp := ROwn (v : N) | RBad | RStuck.
+
+Record hstate := { hs_gz : pstate; hs_zs : pstate; hs_req : nat }.
+Definition hs_pool (codec : N) (s : hstate) : pstate := if codec =? 0 then hs_gz s else hs_zs s.
+Definition hs_set (codec : N) (s : hstate) (p : pstate) (req : nat) : hstate :=
+  if codec =? 0 then {| hs_gz := p; hs_zs := hs_zs s; hs_req := req |}
+  else {| hs_gz := hs_gz s; hs_zs := p; hs_req := req |}.
+
+Definition hstep (dbl : bool) (s : hstate) (o : hop) : hstate * list resp :=
+  let r := hs_req s in
+  match o with
+  | HAbort codec _ =>
+      (hs_set codec s (prun dbl [CGet r; CPut r true] (hs_pool codec s)) (S r), [])
+  | HPlain codec x =>
+      (hs_set codec s (prun dbl [CGet r; CPut r false] (hs_pool codec s)) (S r), [ROwn x])
+  | HOverlap codec xs =>
+      let rs := seq r (length xs) in
+      let p1 := prun dbl (map CGet rs) (hs_pool codec s) in
+      (* every response in flight must hold its own encoder *)
+      let ok := nodupb (map snd (p_held p1)) in
+      let p2 := prun dbl (map (fun q => CPut q false) rs) p1 in
+      (hs_set codec s p2 (r + length xs)%nat, map (fun x => if ok then ROwn x else RBad) xs)
+  end.
+
+Fixpoint hrun (dbl : bool) (s : hstate) (h : list hop) : list (list resp) :=
+  match h with
+  | [] => []
+  | o :: t => let '(s', out) := hstep dbl s o in out :: hrun dbl s' t
+  end.
+
+Definition hinit : hstate := {| hs_gz := pinit; hs_zs := pinit; hs_req := 0 |}.
+
+(* ====================================================================== *)
 (* correspondence interface                                                *)
 (* ====================================================================== *)
 Inductive input :=
@@ -277,7 +370,9 @@ Inductive input :=
   (* free-running readers of the real Once-guarded values; nreaders goroutines *)
 | OnceFree (nreaders : N)
   (* race-detector run: goroutines x rounds of mixed traffic *)
-| Race (goroutines rounds : N).
+| Race (goroutines rounds : N)
+  (* a history of compressed responses, some aborted by the client, some overlapping *)
+| Codec (level : N) (hist : list hop).
 
 Inductive obs :=
 | ONotify (runs : list (nat * binding * binding * bool))  (* hook entries, oldest first *)
@@ -288,7 +383,8 @@ Inductive obs :=
           (stuck : bool)   (* the harness watchdog fired: some caller neither returned, parked nor blocked *)
 | OOnce (count : N) (reads : list (option N)) (cached : option N) (stuck : bool)
 | OOnceFree (readers distinct faults : N) (refmatch : bool)
-| ORace (built : bool) (races errors : N).
+| ORace (built : bool) (races errors : N)
+| OCodec (resps : list (list resp)).
 
 Definition model (i : input) : obs :=
   match i with
@@ -301,6 +397,7 @@ Definition model (i : input) : obs :=
       OOnce (N.of_nat (o_count s)) (map (oread s) (seq 0 (length cands))) (o_val s) false
   | OnceFree n => OOnceFree n 1 0 true
   | Race _ _ => ORace true 0 0
+  | Codec _ hist => OCodec (hrun false hinit hist)
   end.
 
 Definition run_eqb (a b : nat * binding * binding * bool) : bool :=
@@ -315,6 +412,14 @@ Definition tres_eqb (a b : tres) : bool :=
   | _, _ => false
   end.
 
+Definition resp_eqb (a b : resp) : bool :=
+  match a, b with
+  | ROwn x, ROwn y => x =? y
+  | RBad, RBad => true
+  | RStuck, RStuck => true
+  | _, _ => false
+  end.
+
 Definition obs_eqb (a b : obs) : bool :=
   match a, b with
   | ONotify r1 o1 t1 p1 f1 k1, ONotify r2 o2 t2 p2 f2 k2 =>
@@ -325,6 +430,7 @@ Definition obs_eqb (a b : obs) : bool :=
   | OOnceFree n1 d1 f1 m1, OOnceFree n2 d2 f2 m2 =>
       (n1 =? n2) && (d1 =? d2) && (f1 =? f2) && Bool.eqb m1 m2
   | ORace b1 r1 e1, ORace b2 r2 e2 => Bool.eqb b1 b2 && (r1 =? r2) && (e1 =? e2)
+  | OCodec a1, OCodec a2 => list_eqb (list_eqb resp_eqb) a1 a2
   | _, _ => false
   end.
 
@@ -399,6 +505,18 @@ Definition once_spec (cands : list N) (count : N) (reads : list (option N)) (cac
   && forallb (fun r => match r with None => true | Some v => opt_eqb N.eqb cached (Some v) end) reads
   && match cached with None => true | Some v => (count =? 1) && existsb (N.eqb v) cands end.
 
+(* every completed response decodes to its OWN payload; nothing is stuck *)
+Definition hop_expect (o : hop) : list N :=
+  match o with HAbort _ _ => [] | HPlain _ x => [x] | HOverlap _ xs => xs end.
+Definition hop_ok (o : hop) (rs : list resp) : bool :=
+  list_eqb resp_eqb rs (map ROwn (hop_expect o)).
+Fixpoint codec_spec (h : list hop) (rs : list (list resp)) : bool :=
+  match h, rs with
+  | [], [] => true
+  | o :: h', r :: rs' => hop_ok o r && codec_spec h' rs'
+  | _, _ => false
+  end.
+
 Definition spec_ok (i : input) (o : obs) : bool :=
   match i, o with
   | Notify c _, ONotify runs outs results peeks final stuck =>
@@ -406,5 +524,6 @@ Definition spec_ok (i : input) (o : obs) : bool :=
   | OnceRun cands _, OOnce count reads cached stuck => negb stuck && once_spec cands count reads cached
   | OnceFree n, OOnceFree n' d f m => (n =? n') && (d =? 1) && (f =? 0) && m
   | Race _ _, ORace built races errors => built && (races =? 0) && (errors =? 0)
+  | Codec _ hist, OCodec resps => codec_spec hist resps
   | _, _ => false
   end.
